@@ -415,7 +415,42 @@ impl<'tcx> Ex<'tcx> {
                                 let sz = layout.size.bytes() as usize;
                                 let ofs = off.bytes() as usize;
                                 let a = alloc.inner();
-                                if matches!(inner.kind(), ty::Array(..) | ty::Tuple(..)) && sz > 0 && ofs + sz <= a.len() {
+                                // `&Some(&K)` / `&None::<&int>` (e.g. `v.first() == Some(&0)`): follow the inner pointer
+                                let opt_ref_int = match inner.kind() {
+                                    ty::Adt(def, args) if tcx.is_diagnostic_item(rustc_span::sym::Option, def.did()) => {
+                                        match args.type_at(0).kind() {
+                                            ty::Ref(_, it, _) if matches!(it.kind(), ty::Int(_) | ty::Uint(_)) => Some(*it),
+                                            _ => None,
+                                        }
+                                    }
+                                    _ => None,
+                                };
+                                if let Some(it) = opt_ref_int {
+                                    let psz = tcx.data_layout.pointer_size().bytes() as usize;
+                                    if sz == psz && ofs + sz <= a.len() {
+                                        let inner_prov = a.provenance().ptrs().iter().find(|(o_, _)| o_.bytes() as usize == ofs);
+                                        let raw = a.inspect_with_uninit_and_ptr_outside_interpreter(ofs..ofs + sz);
+                                        let mut rel: u64 = 0;
+                                        for (i, b) in raw.iter().enumerate() {
+                                            rel |= (*b as u64) << (8 * i);
+                                        }
+                                        match inner_prov {
+                                            None if rel == 0 => v.push(("ref_const", o(vec![("option", J::Null)]))),
+                                            Some((_, pr)) => {
+                                                if let Some(rustc_middle::mir::interpret::GlobalAlloc::Memory(al2)) =
+                                                    tcx.try_get_global_alloc(pr.alloc_id())
+                                                {
+                                                    let a2 = al2.inner();
+                                                    let b2 = a2.inspect_with_uninit_and_ptr_outside_interpreter(0..a2.len());
+                                                    if let Some(j) = self.decode_const(tenv, b2, rel as usize, it, 0) {
+                                                        v.push(("ref_const", o(vec![("option", j)])));
+                                                    }
+                                                }
+                                            }
+                                            _ => {}
+                                        }
+                                    }
+                                } else if matches!(inner.kind(), ty::Array(..) | ty::Tuple(..)) && sz > 0 && ofs + sz <= a.len() {
                                     let bytes = a.inspect_with_uninit_and_ptr_outside_interpreter(0..a.len());
                                     if let Some(j) = self.decode_const(tenv, bytes, ofs, *inner, 0) {
                                         v.push(("ref_const", j));
